@@ -17,6 +17,7 @@ package v5wire
 import (
 	"bytes"
 	"crypto/ecdsa"
+	"crypto/sha256"
 	"encoding/binary"
 	"encoding/json"
 	"fmt"
@@ -109,6 +110,7 @@ type c45Pkt struct {
 type c45Chal struct {
 	id   int
 	sent mclock.AbsTime
+	w    *Whoareyou // the challenge as sent (ChallengeData is what an observer of the wire also knows)
 }
 
 type c45PeerKey struct {
@@ -398,7 +400,7 @@ func (s *c45Sys) whoareyou(from, to int) (*c45Pkt, error) {
 	if err != nil {
 		return nil, fmt.Errorf("%s: Encode(WHOAREYOU) failed: %v", c45Names[from], err)
 	}
-	f.chal[c45PeerKey{to, c45Idents[to].addr}] = &c45Chal{id: s.chals, sent: s.clock.Now()}
+	f.chal[c45PeerKey{to, c45Idents[to].addr}] = &c45Chal{id: s.chals, sent: s.clock.Now(), w: w}
 	return &c45Pkt{raw: bytes.Clone(raw), from: from, to: to, kind: "wru", chal: s.chals, msg: w, nonce: nonce}, nil
 }
 
@@ -475,6 +477,7 @@ var c45Ops = []string{
 	"msg>b@other",      // ... reaches B from another address
 	"hs>c",             // the handshake packet reaches C
 	"b:whoareyou-lost", // B challenges A, the packet is lost
+	"forged-hs>b",      // C answers B's outstanding challenge for A: C's key, C's record, C's signature, but SrcID = A
 	"reset-a",          // A restarts (sessions and challenges gone)
 	"reset-b",
 	"tick", // 2 s pass (handshake timeout is 1 s)
@@ -488,6 +491,8 @@ func (s *c45Sys) Enabled(op int) bool {
 		return ok
 	case "hs>b", "hs>c":
 		return s.hsAB != nil
+	case "forged-hs>b":
+		return s.nodes[c45B].chal[c45PeerKey{c45A, c45Idents[c45A].addr}] != nil
 	case "replay-msg>b", "msg>c", "msg>b@other":
 		return s.msgAB != nil
 	}
@@ -551,6 +556,12 @@ func (s *c45Sys) Apply(op int) error {
 		return err
 	case "hs>c":
 		_, err := s.deliver(c45C, s.hsAB, addrA)
+		return err
+	case "forged-hs>b":
+		ch := s.nodes[c45B].chal[c45PeerKey{c45A, addrA}]
+		msg := s.nextPing()
+		raw := c45CraftHandshake(c45B, c45ID(c45A), c45Idents[c45C].key, c45RecordBytes(c45C), ch.w.ChallengeData, c45EphKeys[15], msg)
+		_, err := s.deliver(c45B, &c45Pkt{raw: raw, from: c45A, to: c45B, kind: "forged-hs", msg: msg}, addrA)
 		return err
 	case "rekey":
 		for _, sub := range []string{"a>b:ping", "b:whoareyou>a", "hs>b"} {
@@ -634,6 +645,56 @@ func (s *c45Sys) Key() string {
 		fmt.Fprintf(&sb, "hsAB=%d/c%d/rec=%v ", kid(p.kid), cid(p.chal), p.withRe)
 	}
 	return sb.String()
+}
+
+func c45RecordBytes(i int) []byte {
+	b, err := rlp.EncodeToBytes(c45Idents[i].ln.Node().Record())
+	if err != nil {
+		panic(err)
+	}
+	return b
+}
+
+// c45CraftHandshake builds a handshake packet for node dest "by hand", the way an adversary would: claimed source
+// id, ID-nonce signature by an arbitrary key, an arbitrary (or no) record, and session keys derived exactly as
+// the recipient will derive them (from the ephemeral key, the recipient's static key, the CLAIMED source id and
+// the challenge data), so that the message decrypts if and only if the identity checks let the packet through.
+func c45CraftHandshake(dest int, srcID enode.ID, signer *ecdsa.PrivateKey, record, cdata []byte, eph *ecdsa.PrivateKey, msg Packet) []byte {
+	c := NewCodec(c45Idents[c45C].ln, c45Idents[c45C].key, new(mclock.Simulated), nil) // scratch codec: buffers only
+	destID := c45ID(dest)
+	ephpub := EncodePubkey(&eph.PublicKey)
+	sig, err := makeIDSignature(sha256.New(), signer, cdata, ephpub[:], destID)
+	if err != nil {
+		panic(err)
+	}
+	sess := deriveKeys(sha256.New, eph, &c45Idents[dest].key.PublicKey, srcID, destID, cdata)
+	if sess == nil {
+		panic("c45: key derivation failed")
+	}
+	var auth handshakeAuthData
+	auth.h.SrcID = srcID
+	auth.h.SigSize = byte(len(sig))
+	auth.h.PubkeySize = byte(len(ephpub))
+	var ab bytes.Buffer
+	binary.Write(&ab, binary.BigEndian, &auth.h)
+	ab.Write(sig)
+	ab.Write(ephpub[:])
+	ab.Write(record)
+	head := c.makeHeader(destID, flagHandshake, len(sig)+len(ephpub)+len(record))
+	head.AuthData = ab.Bytes()
+	copy(head.Nonce[:], "c45-crafted-")
+	copy(head.IV[:], "c45-crafted-iv--")
+	c.writeHeaders(&head)
+	headerData := bytes.Clone(c.buf.Bytes())
+	msgData, err := c.encryptMessage(sess, msg, &head, headerData)
+	if err != nil {
+		panic(err)
+	}
+	enc, err := c.EncodeRaw(destID, head, msgData)
+	if err != nil {
+		panic(err)
+	}
+	return bytes.Clone(enc)
 }
 
 // c45Replay: see the comment on the same helper of C46 (stable violation key for run.py's confirmation).
@@ -831,6 +892,109 @@ func TestVerif_C45_wire(t *testing.T) {
 				}
 			})
 		}
+
+		// (b2') adversarial handshake answers. B has challenged A's id at A's address (and optionally also C's id at the
+		// same address). The answer is crafted from every combination of
+		//   challenge issued {without record (Node==nil), with A's record, with A's record but RecordSeq 0}
+		//   ID-nonce signature by {A's key, C's key} x record carried {A's, C's, none} x SrcID {A's id, C's id}
+		// with session keys consistent with the claimed SrcID. A session may only come into being for an id whose own
+		// key signed the ID nonce and whose own record (carried or already known) vouches for that key.
+		for _, chalKind := range []string{"no-record", "known-record", "known-record-seq0"} {
+			for _, alsoC := range []bool{false, true} {
+				for _, signer := range []int{c45A, c45C} {
+					for _, rec := range []string{"A", "C", "none"} {
+						for _, src := range []int{c45A, c45C} {
+							c := map[string]any{"grid": "forged-handshake", "challenge": chalKind, "c_also_challenged": alsoC,
+								"signed_by": c45Names[signer], "record_of": rec, "src_id": c45Names[src]}
+							r.Case(c, func() error {
+								s := c45NewSys(r)
+								b := s.nodes[c45B]
+								issue := func(to int, kind string) *Whoareyou {
+									s.chals++
+									w := &Whoareyou{Nonce: Nonce{byte(to), 7, 7}}
+									binary.BigEndian.PutUint64(w.IDNonce[:8], uint64(s.chals))
+									switch kind {
+									case "known-record":
+										w.Node = c45Idents[to].ln.Node()
+										w.RecordSeq = w.Node.Seq()
+									case "known-record-seq0":
+										w.Node = c45Idents[to].ln.Node()
+									}
+									if _, _, err := b.codec.Encode(c45ID(to), addrA, w, nil); err != nil {
+										panic(err)
+									}
+									b.chal[c45PeerKey{to, addrA}] = &c45Chal{id: s.chals, sent: s.clock.Now(), w: w}
+									return w
+								}
+								chal := map[int]*Whoareyou{c45A: issue(c45A, chalKind)}
+								if alsoC {
+									chal[c45C] = issue(c45C, "no-record")
+								}
+								// the adversary answers the challenge that was sent to the id it claims (if there is none, A's)
+								w := chal[src]
+								if w == nil {
+									w = chal[c45A]
+								}
+								var record []byte
+								switch rec {
+								case "A":
+									record = c45RecordBytes(c45A)
+								case "C":
+									record = c45RecordBytes(c45C)
+								}
+								msg := &Ping{ReqID: []byte{9}, ENRSeq: 3}
+								raw := c45CraftHandshake(c45B, c45ID(src), c45Idents[signer].key, record, w.ChallengeData, c45EphKeys[14], msg)
+								before := s.fingerprint(b)
+								gotSrc, node, pkt, err := b.codec.Decode(raw, addrA)
+
+								challenged := chal[src] != nil
+								knows := challenged && chal[src].Node != nil // B already holds the record of the claimed id
+								ownRecord := rec == map[int]string{c45A: "A", c45C: "C"}[src]
+								mustReject := !challenged || signer != src || !(ownRecord || knows)
+								// with a known record, a carried foreign record is dropped or refused depending on sequence numbers
+								ambiguous := !mustReject && knows && rec != "none" && !ownRecord
+								accepted := err == nil && c45IsMessage(pkt)
+								sess := b.codec.sc.session(c45ID(src), addrA)
+								switch {
+								case mustReject:
+									if accepted || sess != nil {
+										return fmt.Errorf("forged handshake accepted: claimed id %s, ID nonce signed by %s, record of %s, challenge %s: decoded %v, session=%v", c45Names[src], c45Names[signer], rec, chalKind, pkt, sess != nil)
+									}
+									if after := s.fingerprint(b); after != before {
+										return fmt.Errorf("rejected handshake changed B's session keys")
+									}
+									r.Outcome("forged-handshake:rejected")
+								case ambiguous:
+									r.Outcome("forged-handshake:foreign-record-with-known-record")
+								default:
+									if !accepted || !c45SameMsg(pkt, msg) || gotSrc != c45ID(src) || sess == nil {
+										return fmt.Errorf("honest hand-built handshake (id %s, own key, record %s, challenge %s) not accepted: %v, err %v — the crafting helper or the codec is wrong", c45Names[src], rec, chalKind, pkt, err)
+									}
+									r.Outcome("forged-handshake:honest-control-accepted")
+								}
+								// whatever happened: every session B holds is bound to a node record of that very id
+								for peer := 0; peer < 3; peer++ {
+									if ss := b.codec.sc.session(c45ID(peer), addrA); ss != nil {
+										if ss.node == nil || ss.node.ID() != c45ID(peer) {
+											return fmt.Errorf("B holds a session for id %s bound to the record of another node", c45Names[peer])
+										}
+										if signer != peer {
+											return fmt.Errorf("B holds a session for id %s although the ID nonce was signed by %s", c45Names[peer], c45Names[signer])
+										}
+									}
+								}
+								if accepted && (node == nil || node.ID() != c45ID(src)) {
+									return fmt.Errorf("handshake accepted with node %v for claimed id %s", node, c45Names[src])
+								}
+								return nil
+							})
+							r.DistinctHash(mc.Hash64(fmt.Sprint("fh", chalKind, alsoC, signer, rec, src)))
+						}
+					}
+				}
+			}
+		}
+		r.Sample(map[string]any{"grid": "forged-handshake", "challenge": "no-record", "c_also_challenged": false, "signed_by": "c", "record_of": "C", "src_id": "a"})
 
 		// (b3) every byte of the WHOAREYOU packet: either A refuses it, or its answer is refused by B
 		{
